@@ -46,6 +46,10 @@ def run(ctx):
 
     check_arm_purity(ctx, "E2-A", P, with_mappers(P, fns))
     check_dispatching(ctx, "E2-A", P, fns)
+    # 2b. keys carried through the endian-named byte codecs come back as the same scalar
+    from . import codecs as C
+
+    C.check_endian_delegation(ctx, P)
     # 3. exit census of the signing path
     roots = [P.fns.get(k) for k in ("SecretKey<C>::sign",)]
     reach = reachable_fns(P, [r for r in roots if r])
